@@ -25,7 +25,7 @@ N_IN = {"ecb_int": 1, "ecb_val": 1, "ecb_str": 1, "ecb_hex": 1, "ecb_instr": 3, 
 
 NUM = [("int", "INT( V )"), ("int2", "INT( V ) + INT( W )"), ("btn2", "BUTTON( 0 ) + BUTTON( 1 )"), ("joy2", "JOYSTK( 0 ) - JOYSTK( 1 )"), ("int_int", "INT( INT( V ) / 2 )"),
        ("abs_int", "ABS( INT( V ) )"), ("int_btn", "INT( BUTTON( 0 ) )"), ("point_btn", "POINT( BUTTON( 0 ) , 2 )"), ("elem_int", "M( INT( V ) )"), ("val_str", "VAL( STR$( V ) )"),
-       ("len_str", "LEN( STR$( V ) )"), ("instr", 'INSTR( 1 , V$ , "B" )'), ("btn_int", "BUTTON( INT( V ) )"), ("mix3", "INT( V ) * BUTTON( 1 ) + VAL( V$ )"), ("plain", "V + 1")]
+       ("len_str", "LEN( STR$( V ) )"), ("instr", 'INSTR( 1 , V$ , "B" )'), ("btn_int", "BUTTON( INT( V ) )"), ("mix3", "INT( V ) * BUTTON( 1 ) + VAL( V$ )"), ("int_neg", "INT( - V / 2 )"), ("point_neg", "POINT( - V + 10 , W )"), ("int_not", "INT( NOT V )"), ("plain", "V + 1")]
 STR = [("str", "STR$( V )"), ("inkey", "INKEY$"), ("inkey2", "INKEY$ + INKEY$"), ("hex", "HEX$( V )"), ("string_int", 'STRING$( INT( V ) , "X" )'), ("left_str", "LEFT$( STR$( V ) , 2 )"),
        ("str_len_inkey", "STR$( LEN( INKEY$ ) )"), ("str_hex", "STR$( V ) + HEX$( W )"), ("chr_btn", "CHR$( BUTTON( 0 ) + 65 )"), ("plain", 'V$ + "!"')]
 
